@@ -4,7 +4,7 @@ import json,os,glob
 root='/verif/seeded'
 summ=json.load(open(root+'/summaries.json'))
 notes=json.load(open(root+'/notes.json')) if os.path.exists(root+'/notes.json') else {}
-waves={'':'Wave 1','b':'Wave 2 (each agent was told the wave-1 change and asked for another site and mechanism)','c':'Wave 3 (told both earlier changes; asked for the least obvious site)','d':'Wave 4 (told all three earlier changes; asked for sites where two features interact)','e':'Wave 5 (told all four; pointed at the code added by the fix commits)'}
+waves={'':'Wave 1','b':'Wave 2 (each agent was told the wave-1 change and asked for another site and mechanism)','c':'Wave 3 (told both earlier changes; asked for the least obvious site)','d':'Wave 4 (told all three earlier changes; asked for sites where two features interact)','e':'Wave 5 (told all four; pointed at the code added by the fix commits)','f':'Wave 6 (told the five earlier ideas as one-liners, asked for a different part of the code)'}
 out=["# Independently seeded changes — which check catches which","",
 "Each change was written by a fresh sub-agent that saw only the property text and a scratch worktree (nothing from /verif).",
 "`sim/tools/seeded.sh <PROP> <dir> <name>` applies the stored patch to a fresh scratch worktree of /repo HEAD, confirms that it builds, that the",
